@@ -98,6 +98,9 @@ type KnownFinding struct {
 	Commit    string `json:"commit,omitempty"`
 }
 
+// KnownPath: the known-findings file (set by the command line handling).
+var KnownPath string
+
 type KnownFile struct {
 	Comment  string         `json:"comment"`
 	Findings []KnownFinding `json:"findings"`
@@ -132,7 +135,11 @@ type evidence struct {
 // Finish applies the known-findings list, prints the report, writes evidence
 // and returns the process exit code.
 func (c *Ctx) Finish(verifDir string, start time.Time, assumptions []string, explanation string) int {
-	kf := LoadKnown(filepath.Join(verifDir, "known_findings.json"))
+	kp := KnownPath
+	if kp == "" {
+		kp = filepath.Join(verifDir, "known_findings.json")
+	}
+	kf := LoadKnown(kp)
 	known := map[string]KnownFinding{}
 	for _, k := range kf.Findings {
 		if k.Status == "known" && k.Property == c.Prop {
